@@ -224,7 +224,7 @@ def run(chk):
         default = "".join(it.default_idx)
         alts = CALT[default]
         if quick:
-            alts = alts[:2] + r.sample(alts[2:], 2)
+            alts = alts[:2] + r.sample(alts[2:], 1)
         for idx in alts:
             for full in (False, True):
                 what = (f"Intermediates().{name}.expand_itmd('{idx}', "
